@@ -69,10 +69,26 @@ def run_shard_process(pid, params_file, out_file):
     finish_reach = _install_reach(shard)
     try:
         mod.run_shard(shard)
-    except Exception:
-        shard.inconclusive_because(
-            "monitor/workload raised: " + traceback.format_exc()[-1500:].replace("\n", " | ")
-        )
+    except Exception as exc:
+        tb = traceback.extract_tb(exc.__traceback__)
+        src = os.path.realpath(SRC)
+        raised_in_pyhf = bool(tb) and os.path.realpath(tb[-1].filename).startswith(src)
+        # deepest pyhf frame, if the exception surfaced from a third-party library called by pyhf
+        through_pyhf = any(os.path.realpath(f.filename).startswith(src) for f in tb)
+        last_verif = max((i for i, f in enumerate(tb) if "/pyhfmon/" in f.filename), default=-1)
+        if raised_in_pyhf or (through_pyhf and last_verif < len(tb) - 1 and any(os.path.realpath(f.filename).startswith(src) for f in tb[last_verif + 1:])):
+            # pyhf itself raised on an in-domain workload step that no driver expected to fail: on the unchanged tree
+            # this never happens, so it is a verdict about the code under test, not about the harness
+            where = next((f for f in reversed(tb) if os.path.realpath(f.filename).startswith(src)), tb[-1])
+            shard.violate(
+                f"{pid}/pyhf-raised:{type(exc).__name__}",
+                f"{type(exc).__name__}: {str(exc)[:300]} raised from {os.path.relpath(where.filename, src)}:{where.lineno} ({where.name}) during the workload",
+                {"traceback": traceback.format_exc()[-1200:]},
+            )
+        else:
+            shard.inconclusive_because(
+                "monitor/workload raised: " + traceback.format_exc()[-1500:].replace("\n", " | ")
+            )
     finish_reach()
     shard.dump(out_file)
     return 0
